@@ -47,6 +47,7 @@ type gateStream struct {
 	closes atomic.Int64
 	gate   chan struct{} // nil: no gate
 	inGate atomic.Bool
+	fail   bool // Close reports an error (e.g. the remote already reset the stream)
 }
 
 func (g *gateStream) Close() error {
@@ -54,6 +55,9 @@ func (g *gateStream) Close() error {
 	if g.gate != nil {
 		g.inGate.Store(true)
 		<-g.gate
+	}
+	if g.fail {
+		return io.ErrClosedPipe
 	}
 	return nil
 }
@@ -269,6 +273,22 @@ func runOwn(out *vio.Out) {
 			case ms != nil:
 				owners.Add(1)
 			}
+		}
+		if r%7 == 1 {
+			// the underlying stream's Close fails: the value is closed all the same and must never hand the stream out afterwards
+			gs.fail, gs.gate = true, nil
+			if cl.Close() {
+				closedTrue.Add(1)
+			}
+			if ms, _, err := v.AcceptMountedStream(); err == nil && ms != nil {
+				owners.Add(1)
+				acceptAfterClose.Store(true)
+			}
+			out.Emit(map[string]any{"i": r, "gated": true, "owners": owners.Load(), "closed_true": closedTrue.Load(), "stream_closes": gs.closes.Load(),
+				"errs": int64(0), "already": int64(0), "accept_after_close": acceptAfterClose.Load()})
+			a.Close()
+			b.Close()
+			continue
 		}
 		if gated {
 			// Close parks inside stream.Close (holding the value's mutex); an accept starts meanwhile
